@@ -142,8 +142,9 @@ type boolSumKey struct {
 }
 
 type descKey struct {
-	v    ssa.Value
-	deep bool
+	v      ssa.Value
+	deep   bool
+	opaque bool
 }
 
 type fieldKey struct {
